@@ -337,7 +337,10 @@ func (c *Ctx) scopeNextNode() {
 				if r, ok := lastInstr(b).(*ssa.Return); ok && len(r.Results) == 1 {
 					nRet++
 					if cv, isC := constBool(r.Results[0]); !isC || cv {
-						prunes = false
+						// (a visitor prunes by returning nil)
+						if cs, isNil := r.Results[0].(*ssa.Const); !isNil || !cs.IsNil() || P.visitorWalk(at.Parent()) == nil {
+							prunes = false
+						}
 					}
 				}
 				work = append(work, b.Succs...)
@@ -663,6 +666,42 @@ func (c *Ctx) flagMeansCodeOnLine(v ssa.Value, fn *ssa.Function, isLineOfComment
 		P.PinnedAll(pinMap{callee: call}, func() { res = c.flagMeansCodeOnLine(ret.Results[0], callee, isLineOfComment) })
 		return res
 	}
+	// the flag is chosen between two computations (inside a declaration: the search; between declarations: the
+	// previous declaration ends on the comment's line)
+	if ph, isPhi := v.(*ssa.Phi); isPhi {
+		all, some := true, false
+		for i, e := range ph.Edges {
+			if cv, isC := constBool(e); isC {
+				if cv {
+					all = false
+				}
+				continue
+			}
+			if _, isCall := e.(*ssa.Call); isCall {
+				if c.flagMeansCodeOnLine(e, fn, isLineOfComment) {
+					some = true
+				} else {
+					all = false
+				}
+				continue
+			}
+			sameLine := false
+			for _, l := range literals(P.condFormula(e, 0), true) {
+				if l.Kind == "eq" && l.Pos && (isLineOfComment(l.X) || isLineOfComment(l.Y)) && strings.Contains(P.Desc(l.X)+P.Desc(l.Y), ".End;") && strings.Contains(P.Desc(l.X)+P.Desc(l.Y), "(*go/token.FileSet).PositionFor") {
+					sameLine = true
+				}
+			}
+			restricts := hasLit(P.BlockGuards(ph.Block().Preds[i]), func(l Lit) bool {
+				return l.Kind == "lt" && l.Pos && strings.HasPrefix(P.Desc(l.Y), "call(builtin len; field(") && strings.Contains(P.Desc(l.Y), "go/ast.File.Decls)")
+			})
+			if sameLine && !restricts {
+				some = true
+			} else {
+				all = false
+			}
+		}
+		return all && some
+	}
 	u, ok := v.(*ssa.UnOp)
 	if !ok {
 		return false
@@ -940,6 +979,19 @@ func (c *Ctx) ruleReportGate(onlyPkgs ...string) {
 			for _, r := range P.Resolve(msgV) {
 				if call, ok := r.(*ssa.Call); ok && call.Call.StaticCallee() != nil && len(call.Call.Args) == 2 && P.Desc(call.Call.Args[1]) == vD {
 					okMsg = c.checkFormat(call.Call.StaticCallee())
+					if !okMsg {
+						// the same question on the emitted text (Fprintf, concatenation, printer objects)
+						m, u, always := c.checkFormatText(call.Call.StaticCallee())
+						okMsg = m && u
+						if okMsg && c.Prop == "C17" && !c.helpChecked[call.Call.StaticCallee()] {
+							if c.helpChecked == nil {
+								c.helpChecked = map[*ssa.Function]bool{}
+							}
+							c.helpChecked[call.Call.StaticCallee()] = true
+							c.check(always, "REPORT-GATE/HELP-ALWAYS", FuncName(call.Call.StaticCallee()), P.Pos(call.Call.StaticCallee().Pos()), "the documentation link is written on every path of the message formatter",
+								"the documentation link is written only on some paths of the formatter (e.g. only when the source excerpt could be read): a diagnostic whose position was remapped by a //line directive, or whose file cannot be read, carries no link")
+						}
+					}
 				}
 			}
 		}
